@@ -21,7 +21,7 @@ class C27(Scenario):
         "quick": [("fault-free", 5), ("interrupts", 4), ("stack", 2), ("aliasing", 2)],
         "thorough": [("fault-free", 5), ("interrupts", 5), ("stack", 3), ("aliasing", 3), ("long", 2), ("untorn-off", 1)],
     }
-    runs = {"quick": 1100, "thorough": 90000}
+    runs = {"quick": 4000, "thorough": 90000}
     wall = {"quick": 75, "thorough": 1300}
     rule = (
         "one run = one generated pool program on one simulated process (seeded salt): environment, 1-3 forms, "
